@@ -1,7 +1,7 @@
 (* C05 - KVStore operations (mapdb, realm views, batches, flushkv) are linearizable under concurrent use.
    Statements only; proofs in C05_KVConc/{Lin,Proofs,Locks}.v over the executable model C05_KVConc/Model.v. *)
 From Coq Require Import NArith List Bool Arith Permutation.
-From Verif.C05_KVConc Require Import Model Lin Proofs Locks BatchModel BatchProofs.
+From Verif.C05_KVConc Require Import Model Lin Proofs Locks BatchModel BatchProofs Fresh.
 Import ListNotations.
 
 (* ------------------------------------------------------------------ linearizability, all schedules *)
@@ -83,6 +83,31 @@ Theorem C05_effects_under_lock : forall scripts sch th o p,
   In th (threads (run sch (init scripts))) -> cur th = Some (IEff o :: p) ->
   exists w, hm th = Some w /\ (is_write o = true -> w = true).
 Proof. exact effects_under_lock. Qed.
+
+(* ------------------------------------------------------------------ view creation (round 4) *)
+(* WithRealm / WithExtendedRealm / Batched are CWithRealm in the model (only the closed test is observable): the derived view
+   is a view with an object id nobody used before and the realm the derivation prescribes - a pure function of the realm, not
+   of what the parent view is doing. What "its own fresh lock" means for the run: in EVERY reachable state a view object on
+   which no call is in flight (Fresh.not_in_use: no thread's remaining program still has to release its lock) can be locked
+   for writing and for reading immediately, whatever is going on on its parent and siblings; so the first call through a freshly
+   derived view never waits for the view lock (it may wait for the map lock, which C05_no_deadlock covers).
+   Real code: seeded/C05-m10 (WithExtendedRealm copying the parent's RWMutex), harness family `derive`. *)
+Theorem C05_unused_view_unlocked : forall scripts sch x,
+  let s := run sch (init scripts) in
+  not_in_use x s -> can_lock (threads s) (LView x) = true /\ can_rlock (threads s) (LView x) = true.
+Proof. exact unused_view_unlocked. Qed.
+
+(* non-vacuity: the parent (object 1) is write-locked by a Set in flight, object 7 was just derived from it and is not in use;
+   its first writer takes the lock of object 7 at once and returns after the parent's writer released the map lock *)
+Example C05_unused_view_example :
+  let s := run fr_sch (init fr_scripts) in
+  map (fun th => (hv th, hm th)) (threads s) = [(Some (1, true), Some true); (None, None)] /\ not_in_use 7 s /\
+  map hv (threads (run (fr_sch ++ [1; 1; 1; 1; 1]) (init fr_scripts))) = [Some (1, true); Some (7, true)].
+Proof.
+  split; [vm_compute; reflexivity|]. split; [|vm_compute; reflexivity].
+  intros th p Hin Hc. vm_compute in Hin. destruct Hin as [<-|[<-|[]]]; vm_compute in Hc; [|discriminate].
+  injection Hc as <-. reflexivity.
+Qed.
 
 (* ------------------------------------------------------------------ a batch object shared by goroutines (round 2) *)
 (* One BatchedMutations object used by ANY number of goroutines and reused after Commit / Cancel (BatchModel.v: the
@@ -263,3 +288,4 @@ Print Assumptions C05_shared_batch_linearizable.
 Print Assumptions C05_shared_batch_no_lost_write.
 Print Assumptions C05_refuted_batch_swapped_on_commit.
 Print Assumptions C05_shared_batch_never_loses.
+Print Assumptions C05_unused_view_unlocked.
